@@ -169,3 +169,12 @@ Proof.
   { split; [reflexivity|]. vm_compute. constructor; [discriminate|constructor]. }
   split; [right; right; split; [reflexivity|eexists; reflexivity]|]. vm_compute. reflexivity.
 Qed.
+
+(* ---- pinned tree: /[^\x00-\xff]ab/ was compiled to the literal "ab" *)
+Definition h_ec : hir := HConcat [HClass (ClsBracket [CRange 0 255] true); HLit 97; HLit 98].
+Definition d_ec : sdesc :=
+  {| s_lits := [[97;98]]; s_atoms := [(0, 0)]; s_kind := KLiterals; s_mods := md_re;
+     s_hir := h_ec; s_pre := None; s_post := None |}.
+Lemma empty_class_pinned_refuted :
+  starts_spec (flags_of md_re) [97;98] h_ec = [] /\ model_scan d_ec [97;98] 1000 = [(0, 2)].
+Proof. vm_compute. split; reflexivity. Qed.
